@@ -982,4 +982,119 @@ def candidatesOld (w : World) : Src → List BlobMeta
   | .types ts => candidatesTypesOld w ts
   | s => candidates w s
 
+
+/-! ## The specification of `Query` and the guards of the theorems
+
+The order of the full result: `blobref` by ref; `-created` / `-mod` newest first, equal times by
+larger ref first (corpus.go:997); `created` oldest first; otherwise no order is asked for.  Ties of
+`created` and the whole order of an unsorted result are left to Go's map iteration by the real
+code; here they are in the world's enumeration order (`w.blobs`). -/
+
+def specLt (w : World) : SortT → BlobMeta → BlobMeta → Bool
+  | .blobRefAsc => ltRef
+  | .createdAsc => fun a b => decide (w.anyTime a.ref < w.anyTime b.ref)
+  | .createdDesc => ltTimeRefDesc w.anyTime
+  | .lastModDesc => ltTimeRefDesc w.modTime
+  | _ => fun _ _ => false
+
+/-- **what a query must return**: the first `limit` of all matching blobs in the order of the sort -/
+def specResult (t : Pk.Ref.Tbl) (w : World) (q : Query) : List BlobMeta :=
+  let all := isort (specLt w q.plannedSort) (w.blobs.filter (matchesC t w q.c))
+  if q.plannedSort != .map && q.plannedLimit > 0 then all.take q.plannedLimit.toNat else all
+
+/-- the sorts by time exist for queries about permanodes only (SearchQuery.Sort doc); sorting by
+oldest modification first is a TODO of the code (query.go:1161) -/
+def Query.supported (q : Query) : Bool :=
+  match q.plannedSort with
+  | .createdDesc | .createdAsc | .lastModDesc => onlyMatchesPermanode q.c
+  | .lastModAsc => false
+  | _ => true
+
+def Query.timeSorted (q : Query) : Bool :=
+  match q.plannedSort with
+  | .createdDesc | .createdAsc | .lastModDesc => true
+  | _ => false
+
+/-- node-local predicates checked at every struct of a constraint tree -/
+structure NodePred where
+  c : Op → Cons → Cons → Flat → Perm → FileC → DirC → Bool
+  p : PFlat → Cons → Option RFlat → Cons → Cons → Bool
+  d : DFlat → DirC → Cons → Cons → Bool
+
+mutual
+def allC (φ : NodePred) : Cons → Bool
+  | .nil => true
+  | .mk op a b f pn fl dr => φ.c op a b f pn fl dr && allC φ a && allC φ b && allP φ pn && allF φ fl && allD φ dr
+def allP (φ : NodePred) : Perm → Bool
+  | .nil => true
+  | .mk p inSet rel relAny relAll => φ.p p inSet rel relAny relAll && allC φ inSet && allC φ relAny && allC φ relAll
+def allF (φ : NodePred) : FileC → Bool
+  | .nil => true
+  | .mk _ parentDir => allD φ parentDir
+def allD (φ : NodePred) : DirC → Bool
+  | .nil => true
+  | .mk d parentDir rc cc => φ.d d parentDir rc cc && allD φ parentDir && allC φ rc && allC φ cc
+end
+
+/-- no permanode constraint anywhere in the tree asks for attribute values (so evaluating it never
+touches the scratch slice) -/
+def noAttrPred : NodePred := ⟨fun _ _ _ _ _ _ _ => true, fun p _ _ _ _ => p.attr.isEmpty, fun _ _ _ _ => true⟩
+def noAttr (c : Cons) : Bool := allC noAttrPred c
+
+/-- **guard against the scratch-slice defect** (query.go:1733/1901): wherever attribute values are
+iterated with a ValueInSet sub-constraint, that sub-constraint asks for no attribute values itself -/
+def scratchSafePred : NodePred :=
+  ⟨fun _ _ _ _ _ _ _ => true, fun p inSet _ _ _ => p.attr.isEmpty || noAttr inSet, fun _ _ _ _ => true⟩
+def scratchSafe (c : Cons) : Bool := allC scratchSafePred c
+
+/-- nothing in the tree dereferences a nil pointer: Logical has its operands, a relation is
+"parent" or "child" with exactly one of Any / All (checkValid only looks at the top struct) -/
+def deepValidPred : NodePred :=
+  ⟨fun op a b _ _ _ _ => op == .none || (!a.isNil && (op == .not || !b.isNil)),
+   fun _ _ rel relAny relAll => match rel with
+     | none => true
+     | some r => (r.relation == sParent || r.relation == sChild) && (relAny.isNil != relAll.isNil),
+   fun _ _ _ _ => true⟩
+def deepValid (c : Cons) : Bool := allC deepValidPred c
+
+/-- a Contains / RecursiveContains constraint of one of the documented shapes and nothing else:
+a BlobRefPrefix alone, a FileConstraint alone, a DirConstraint alone, or a Logical alone over
+file / dir constraints (DirConstraint.Contains doc) -/
+def containsShape : Cons → Bool
+  | .nil => true
+  | .mk op a b f pn fl dr =>
+    let other := f.anything || !f.camliType.isEmpty || f.anyCamliType || f.blobSize.isSome || !pn.isNil
+    if !f.pfx.isEmpty then !other && op == .none && fl.isNil && dr.isNil
+    else if !fl.isNil then !other && op == .none && dr.isNil
+    else if !dr.isNil then !other && op == .none
+    else !other && op != .none && isFileOrDir (.mk op a b f pn fl dr)
+
+/-- **guard against the RecursiveContains defect** (query.go:2194) and against Contains
+constraints of an undocumented shape: a RecursiveContains stands alone in its DirConstraint -/
+def dirSafePred : NodePred :=
+  ⟨fun _ _ _ _ _ _ _ => true, fun _ _ _ _ _ => true,
+   fun d parentDir rc cc => containsShape rc && containsShape cc &&
+     (!(cc.isNil && !rc.isNil) || (d.name.isNone && d.pfx.isEmpty && parentDir.isNil && d.topFileCount.isNone))⟩
+def dirSafe (c : Cons) : Bool := allC dirSafePred c
+
+/-- **guard against the dangling-relation defect** (query.go:912): every claim is about a blob of
+the world, and every claim value that is a ref names a blob of the world -/
+def World.noDangling (t : Pk.Ref.Tbl) (w : World) : Bool :=
+  w.claims.all (fun c => (w.getBlob c.pn).isSome && (!refOK t c.value || (w.getBlob c.value).isSome))
+
+/-- the index has a FileInfo for every directory blob -/
+def World.dirsHaveInfo (w : World) : Bool :=
+  w.blobs.all (fun b => b.camliType != sDirectory || (w.fileInfo b.ref).isSome)
+
+/-- **guard against the sorted-source defect** (corpus.go:1054-1058) and the CreatedAsc error
+(query.go:1145): every matching blob is a permanode the sorted enumerations know – it has claims,
+is not deleted and has both times -/
+def timedOK (t : Pk.Ref.Tbl) (w : World) (c : Cons) : Bool :=
+  w.blobs.all (fun b => !matchesC t w c b ||
+    (w.hasClaims b.ref && !w.isDeleted b.ref && w.anyTime b.ref != 0 && w.modTime b.ref != 0))
+
+/-- the matcher of `c` computes the documented meaning on every blob, whatever the scratch state -/
+def MatcherOK (t : Pk.Ref.Tbl) (w : World) (c : Cons) : Prop :=
+  ∀ b st, ∃ st', matchC t w c b st = .ok (matchesC t w c b, st')
+
 end Pk.Search
